@@ -494,9 +494,115 @@ func c04Run(x *engine.X) {
 		x.Failf("spec-mismatch", shape, "spec decoder reads a different sequence: %s; encoded=%x", why, ref)
 		return
 	}
+	// (3b) dictionary building for the PLAIN pairs of a value type: the values are
+	// inserted into a dictionary of the type (empty, or created with k existing
+	// values), every index must lead back to its value, and the indexes and the
+	// dictionary page take part in the cross-variant digest (hash probes and
+	// lookup kernels are CPU specific)
+	dictDigest := ""
+	if strings.HasPrefix(p.name, "PLAIN/") && p.typ >= 1 {
+		typ, mk := c04TypeOf(p)
+		if typ != nil {
+			for _, k := range []int{0, 1, 3, 10} {
+				var pre []parquet.Value
+				for i := 0; i < k; i++ {
+					pre = append(pre, mk(c04Distinct(p, i)))
+				}
+				var d parquet.Dictionary
+				if k == 0 {
+					d = typ.NewDictionary(0, 0, typ.NewValues(nil, nil))
+				} else {
+					// an existing dictionary: k distinct values that are not in the alphabet
+					tmp := typ.NewDictionary(0, 0, typ.NewValues(nil, nil))
+					tmp.Insert(make([]int32, k), pre)
+					d = typ.NewDictionary(0, k, tmp.Page().Data())
+				}
+				vals := make([]parquet.Value, len(seq))
+				for i, v := range seq {
+					vals[i] = mk(v)
+				}
+				idx := make([]int32, len(vals))
+				d.Insert(idx, vals)
+				back := make([]parquet.Value, len(vals))
+				d.Lookup(idx, back)
+				for i := range vals {
+					if idx[i] < 0 || int(idx[i]) >= d.Len() {
+						x.Failf("dictionary", shape+";pre="+fmt.Sprint(k), "value %d got index %d of a dictionary of %d values", i, idx[i], d.Len())
+						return
+					}
+					if !bytes.Equal(d.Index(idx[i]).AppendBytes(nil), vals[i].AppendBytes(nil)) || !bytes.Equal(back[i].AppendBytes(nil), vals[i].AppendBytes(nil)) {
+						x.Failf("dictionary", shape+";pre="+fmt.Sprint(k), "dictionary with %d existing values: value %d (%x) was given index %d, which holds %x (Lookup: %x)", k, i, vals[i].AppendBytes(nil), idx[i], d.Index(idx[i]).AppendBytes(nil), back[i].AppendBytes(nil))
+						return
+					}
+				}
+				for i := 0; i < k; i++ {
+					if !bytes.Equal(d.Index(int32(i)).AppendBytes(nil), pre[i].AppendBytes(nil)) {
+						x.Failf("dictionary", shape+";pre="+fmt.Sprint(k), "existing dictionary value %d changed", i)
+						return
+					}
+				}
+				h := sha256.New()
+				for _, i := range idx {
+					h.Write(le32(uint32(i)))
+				}
+				for i := 0; i < d.Len(); i++ {
+					b := d.Index(int32(i)).AppendBytes(nil)
+					h.Write([]byte{byte(len(b))})
+					h.Write(b)
+				}
+				dictDigest += fmt.Sprintf("%x", h.Sum(nil)[:8])
+			}
+		}
+	}
 	// (4) the bytes (and hence everything derived) must not depend on the build variant
 	x.VariantShape(shape)
-	x.Outcome(fmt.Sprintf("%x", sha256.Sum256(ref)))
+	x.Outcome(fmt.Sprintf("%x%s", sha256.Sum256(ref), dictDigest))
+}
+
+// c04TypeOf returns the parquet type of a PLAIN pair and a constructor of its values.
+func c04TypeOf(p c04Pair) (parquet.Type, func([]byte) parquet.Value) {
+	switch p.typ {
+	case 1:
+		return parquet.Int32Type, func(b []byte) parquet.Value { return parquet.Int32Value(int32(binary.LittleEndian.Uint32(b))) }
+	case 2:
+		return parquet.Int64Type, func(b []byte) parquet.Value { return parquet.Int64Value(int64(binary.LittleEndian.Uint64(b))) }
+	case 3:
+		return parquet.Int96Type, func(b []byte) parquet.Value {
+			return parquet.Int96Value(deprecated.Int96{binary.LittleEndian.Uint32(b), binary.LittleEndian.Uint32(b[4:]), binary.LittleEndian.Uint32(b[8:])})
+		}
+	case 4:
+		return parquet.FloatType, func(b []byte) parquet.Value {
+			return parquet.FloatValue(math.Float32frombits(binary.LittleEndian.Uint32(b)))
+		}
+	case 5:
+		return parquet.DoubleType, func(b []byte) parquet.Value {
+			return parquet.DoubleValue(math.Float64frombits(binary.LittleEndian.Uint64(b)))
+		}
+	case 6:
+		return parquet.ByteArrayType, func(b []byte) parquet.Value { return parquet.ByteArrayValue(append([]byte(nil), b...)) }
+	case 7:
+		return parquet.FixedLenByteArrayType(p.size), func(b []byte) parquet.Value { return parquet.FixedLenByteArrayValue(append([]byte(nil), b...)) }
+	}
+	return nil, nil
+}
+
+// c04Distinct returns the i-th of a family of distinct values of the pair's type
+// that are not in its alphabet.
+func c04Distinct(p c04Pair, i int) []byte {
+	switch p.typ {
+	case 1, 4:
+		return le32(uint32(1000 + i))
+	case 2, 5:
+		return le64(uint64(1000 + i))
+	case 3:
+		return append(le64(uint64(1000+i)), le32(7)...)
+	case 6:
+		return []byte(fmt.Sprintf("existing-%d", i))
+	default:
+		b := make([]byte, p.size)
+		b[0], b[p.size-1] = 0xee, byte(i+1)
+		return b
+	}
 }
 
 func flatten(s c04Seq) []byte {
@@ -523,7 +629,7 @@ func init() {
 	Register(&engine.Prop{
 		ID:    "C04",
 		Level: "exploration",
-		Rule: "63 (encoding, type) pairs - PLAIN x 8 types, RLE booleans, hybrid RLE/bit-packed levels at widths 1..8 and int32 at widths 0..32, RLE_DICTIONARY index pages, DELTA_BINARY_PACKED int32/int64, DELTA_LENGTH_BYTE_ARRAY, DELTA_BYTE_ARRAY (byte array, flba 4/16), BYTE_STREAM_SPLIT (float, double, int32, int64, flba 4/16) - x {ALL sequences of length <=4 (6 thorough) over 5-6 boundary values; 12 structured patterns x 18 lengths around the 8/32/64/128/256/1024 block boundaries} x 4 destination-buffer histories (+ reuse of a previous call's buffer) x build variants asm / no-AVX2 / purego; " +
+		Rule: "63 (encoding, type) pairs - PLAIN x 8 types, RLE booleans, hybrid RLE/bit-packed levels at widths 1..8 and int32 at widths 0..32, RLE_DICTIONARY index pages, DELTA_BINARY_PACKED int32/int64, DELTA_LENGTH_BYTE_ARRAY, DELTA_BYTE_ARRAY (byte array, flba 4/16), BYTE_STREAM_SPLIT (float, double, int32, int64, flba 4/16) - x {ALL sequences of length <=4 (6 thorough) over 5-6 boundary values; 12 structured patterns x 18 lengths around the 8/32/64/128/256/1024 block boundaries} + for the 7 value types: the sequence inserted into a dictionary of the type (empty or created with 1 / 3 / 10 existing values), every index leading back to its value - x 4 destination-buffer histories (+ reuse of a previous call's buffer) x build variants asm / no-AVX2 / purego; " +
 			"non-trivial = >=2 values, distinct by (pair, sequence)",
 		Assumptions: []string{"the independent decoder is pqref (written from Encodings.md); encoded bytes are compared across build variants case by case"},
 		Bound:       func(string) int { return 0 },
